@@ -164,6 +164,9 @@ class PDE(SDEBase):
 
         from ..tools.expressions import ScalarExpression
 
+        if not isinstance(rhs, dict):
+            rhs = dict(rhs)
+
         # parse noise strength
         if isinstance(noise, dict):
             noise_arr: ArrayLike = np.array([noise.get(var, 0) for var in rhs])
@@ -178,8 +181,6 @@ class PDE(SDEBase):
         )
 
         # validate input
-        if not isinstance(rhs, dict):
-            rhs = dict(rhs)
         for name in rhs:
             self._check_identifier(name)
         if consts is None:
